@@ -526,6 +526,34 @@ func runC15(c *Ctx) {
 		}
 		c.Run(resolveReparse(calls))
 	}
+	// two children of one master whose private scalars both start with a zero byte (they are padded when stored):
+	// deriving or erasing the second must not disturb the first
+	for k := 0; k < c.Pick(2, 10); k++ {
+		seed := randBytes(r, 32)
+		m, err := hdkeychain.NewMaster(seed, nets[0])
+		if err != nil {
+			continue
+		}
+		var zs []uint32
+		for i := 0; i < 3000 && len(zs) < 3; i++ {
+			idx := uint32(1<<31) + uint32(i)
+			if ch, err := m.Child(idx); err == nil {
+				if sk, err := ch.ECPrivKey(); err == nil && sk.Serialize()[0] == 0 {
+					zs = append(zs, idx)
+				}
+			}
+		}
+		if len(zs) < 2 {
+			continue
+		}
+		calls := []Event{hdCfg(), {"op": "NewMaster", "dst": 1, "seed": ints(seed), "net": 1}}
+		for j, ix := range zs {
+			calls = append(calls, Event{"op": "Child", "src": 1, "dst": 2 + j, "idx": w32(ix)})
+		}
+		calls = append(calls, Event{"op": "Zero", "src": 2 + len(zs) - 1}, Event{"op": "Child", "src": 2, "dst": 7, "idx": w32(1)},
+			Event{"op": "Child", "src": 1, "dst": 8, "idx": w32(zs[0])})
+		c.Run(calls)
+	}
 	// keys assembled from caller-owned slices inside larger buffers
 	for k := 0; k < c.Pick(16, 160); k++ {
 		c.Run([]Event{hdCfg(), {"op": "PartsPurity", "seed": ints(randBytes(r, 32)), "private": k%2 == 0}})
